@@ -21,6 +21,12 @@ def silence() -> None:
     root.setLevel(logging.CRITICAL + 10)
     logging.disable(logging.CRITICAL)
     warnings.filterwarnings("ignore")
+    try:  # netcdf-c's default 64 MB per-file chunk cache makes every tiny file cost ~10 ms of page zeroing
+        import netCDF4
+
+        netCDF4.set_chunk_cache(65536, 101, 0.75)
+    except Exception:
+        pass
 
 
 _ROOT: Path | None = None
